@@ -528,3 +528,38 @@ func (c *Ctx) mustPassOrErr(fn *ssa.Function, ret *ssa.Return, via InstrPred) ([
 	path, found := q.Reach(entrySite(fn), factUnknown, isInstr(ret))
 	return path, !found
 }
+
+// neverNilError: a package function returning *Error all of whose returns are fresh errors: a call of a
+// constructor (newError / newErrorf), of another such function, or the address of an Error literal.
+func (c *Ctx) neverNilError(fn *ssa.Function, depth int) bool {
+	if fn == nil || depth > 3 {
+		return false
+	}
+	switch c.fname(fn) {
+	case "newError", "newErrorf":
+		return true
+	}
+	if fn.Blocks == nil || fn.Pkg != c.Pkg || fn.Signature.Results().Len() != 1 {
+		return false
+	}
+	rets := returnsOf(fn)
+	if len(rets) == 0 {
+		return false
+	}
+	for _, ret := range rets {
+		v := ret.Results[0]
+		if mi, ok := v.(*ssa.MakeInterface); ok {
+			v = mi.X
+		}
+		switch x := v.(type) {
+		case *ssa.Call:
+			if !c.neverNilError(x.Call.StaticCallee(), depth+1) {
+				return false
+			}
+		case *ssa.Alloc:
+		default:
+			return false
+		}
+	}
+	return true
+}
